@@ -5,13 +5,21 @@ use std::io::{self, BufRead, Write};
 use std::panic;
 
 mod util;
-mod lexmode;
-mod pipemode;
+#[allow(dead_code)]
 mod sexp;
+#[cfg(feature = "m_lex")]
+mod lexmode;
+#[cfg(feature = "m_pipe")]
+mod pipemode;
+#[cfg(feature = "m_core")]
 mod coremode;
+#[cfg(feature = "m_ty")]
 mod tymode;
+#[cfg(feature = "m_imports")]
 mod impmode;
+#[cfg(feature = "m_proj")]
 mod projmode;
+#[cfg(feature = "m_render")]
 mod rendermode;
 
 fn main() {
@@ -59,15 +67,25 @@ fn main() {
 
 fn dispatch(mode: &str, payload: &str) -> String {
     match mode {
+        #[cfg(feature = "m_lex")]
         "lex" => lexmode::lex(payload),
+        #[cfg(feature = "m_pipe")]
         "pipe" => pipemode::pipe(payload),
+        #[cfg(feature = "m_core")]
         "core" => coremode::print(payload),
+        #[cfg(feature = "m_imports")]
         "imports" => impmode::imports(payload),
+        #[cfg(feature = "m_proj")]
         "proj" => projmode::proj(payload),
+        #[cfg(feature = "m_render")]
         "render" => rendermode::render(payload),
+        #[cfg(feature = "m_ty")]
         "tysup" => tymode::sup(payload),
+        #[cfg(feature = "m_ty")]
         "tyunion" => tymode::union(payload),
+        #[cfg(feature = "m_ty")]
         "tyclasses" => tymode::classes(payload),
+        #[cfg(feature = "m_pipe")]
         "multi" => pipemode::multi(payload),
         _ => format!("BADMODE {mode}"),
     }
